@@ -172,6 +172,11 @@ func ctxReference(items []int, lines []int) ctxVerdict {
 		return place(d)
 	}
 	for i, it := range items {
+		if it == -2 {
+			// the generator writes it only where the directive before it has its parenthesis already, after a ")" and at the
+			// very beginning: nothing can own it, and it is met before the pending directive is placed
+			return ctxVerdict{class: "nodirective", line: lines[i]}
+		}
 		if it == -1 {
 			if v := flush(); v != nil {
 				return *v
@@ -223,6 +228,10 @@ func ctxRender(items []int) (string, []int) {
 			w(")")
 			continue
 		}
+		if it == -2 {
+			w("(") // an opening parenthesis that no directive can own (random sequences only)
+			continue
+		}
 		kd := ctxKinds[it/2]
 		w(kd.text)
 		if it%2 == 1 {
@@ -265,6 +274,9 @@ func ctxImpl(text string) (v ctxVerdict, laterErr string, panicked string) {
 				return
 			case strings.HasPrefix(je.Msg, "this opening parenthesis is not closed"):
 				v = ctxVerdict{class: "unclosed"}
+				return
+			case strings.HasPrefix(je.Msg, "there is no directive to which this element could belong"):
+				v = ctxVerdict{class: "nodirective", line: int(je.Line)}
 				return
 			}
 			laterErr = je.Msg
@@ -464,6 +476,18 @@ var c11Random = &vlib.Check{
 					items = append(items, -1)
 				}
 			}
+		}
+		if vlib.Chance(r, 1, 8) {
+			// a second "(" for a directive that has one already, or a "(" after a ")" or at the very beginning
+			var at []int
+			at = append(at, 0)
+			for i, it := range items {
+				if it == -1 || (it >= 0 && it%2 == 1) {
+					at = append(at, i+1)
+				}
+			}
+			i := vlib.Pick(r, at)
+			items = append(items[:i:i], append([]int{-2}, items[i:]...)...)
 		}
 		return c11Case(items)
 	},
